@@ -68,7 +68,7 @@ def tasks(tier):
     for M, e in itertools.product([2] if tier == "quick" else [2, 3],
                                   ["Retry.call", "Policy.call", "RetryPolicy.call", "deco", "Retry.context"]):
         cfg = dict(M=M, alphabet=["ok", "x:T"] if tier == "quick" else ["ok", "x:T", "r:T"],
-                   attempt_timeout=1, durs=[0, 10], real_executor=True, late_menu=late,
+                   attempt_timeout=2, durs=[0, 10], real_executor=True, late_menu=late,
                    max_unknown=None, handler="call" if e != "deco" else None,
                    handler_menu=["SLEEP"], sleeper="call" if e != "deco" else "policy")
         out.append({"family": "surface-late-attempt", "cfg": cfg, "entry": e, "bound": 1,
